@@ -104,6 +104,19 @@ def gen_cases(ctx):
         vals = [rng.choice(["nan", 1.0, 2.0, 3.0, 4.0, 2.5]) for _ in range(nrow)]
         vals[rng.randrange(nrow)] = "nan"
         cases.append({"op": "inproc", "helper": h, "kind": "float", "args": a, "vals": vals, "g": [rng.randint(0, 1) for _ in range(nrow)]})
+    # big groups (beyond any small-size special case of a kernel: 100+ rows) whose equal values are NOT adjacent, next to a
+    # small group, for every helper and every Numba-eligible kind
+    for kind in ("int", "float", "bool", "date"):
+        big = 150
+        cyc = {"int": [0, 1, 2], "float": [0.5, 1.5, 2.5], "bool": [True, False], "date": [0, 1, 18000]}[kind]
+        vals = [cyc[i % len(cyc)] for i in range(big)] + cyc[:2] + cyc[:1]
+        g = [0] * big + [1] * 3
+        for h in ("count_unique", "mode", "median", "max", "min", "first", "last", "nth", "sum", "mean", "std", "var", "quantile", "count", "any", "all"):
+            if kind == "date" and h in C07.NUMERIC_ONLY:
+                continue
+            a = C07.gen_args(rng, h)
+            a.pop("drop_na", None)
+            cases.append({"op": "inproc", "helper": h, "kind": kind, "args": a, "vals": vals, "g": g})
     # several helpers on the same column in ONE aggregate() call ("in the same call")
     nm = 60 if ctx.tier == "quick" else 1500
     for _ in range(nm):
